@@ -526,8 +526,12 @@ RestartL(graceful, lazy, dmg, label) ==
                 ELSE IF dmg[b] = "lose" THEN [bl0[b] EXCEPT !.ifcnt = -1]
                 ELSE [bl0[b] EXCEPT !.ifcnt = -2]]
       ids == DOMAIN bl1
-      top == Max(ids)
-      a2  == IF lazy THEN None ELSE top
+      \* a directory without any blob file is initialised like a new one (also by init_lazy):
+      \* a fresh active blob, whose id must still be above every id ever used (quarantined ones)
+      none  == ids = {}
+      fresh == (IF QuarIdsReserved THEN Max(usedIds) ELSE -1) + 1
+      top == IF none THEN fresh ELSE Max(ids)
+      a2  == IF none THEN fresh ELSE IF lazy THEN None ELSE top
       \* an index is used iff it is valid for the current blob length; otherwise it is
       \* rebuilt from the blob by pushing in file order; every non-active blob is dumped
       bl2 == [b \in ids |->
@@ -544,11 +548,13 @@ RestartL(graceful, lazy, dmg, label) ==
   IN
   /\ act' = Act("restart", 0, 0, 0, (IF graceful THEN 1 ELSE 0) + (IF lazy THEN 2 ELSE 0), label)
   /\ ret' = Ok
-  /\ blob' = bl2 /\ active' = a2 /\ slots' = cl
-  /\ nextId' = (IF QuarIdsReserved THEN Max(usedIds) ELSE top) + 1
+  /\ blob' = IF none THEN (fresh :> NewBlob) ELSE bl2
+  /\ active' = a2 /\ slots' = cl
+  /\ nextId' = (IF none THEN fresh ELSE IF QuarIdsReserved THEN Max(usedIds) ELSE top) + 1
+  /\ usedIds' = IF none THEN usedIds \cup {fresh} ELSE usedIds
   /\ worker' = "running"
   /\ agedIds' = {}
-  /\ UNCHANGED <<usedIds, quar, opn>>
+  /\ UNCHANGED <<quar, opn>>
 
 Restart(graceful, lazy, dmg) == RestartL(graceful, lazy, dmg, "")
 
